@@ -1,4 +1,4 @@
-import J5V.Schema.PropSet
+import J5V.Schema.CodecBridge
 import J5V.Schema.Export
 import J5V.Generated.SchemaFacts
 /-!
@@ -50,9 +50,12 @@ theorem C18_names_unique (fr : Frame) (ops : List RegOp) (h : finish fr = .ok op
 
 /-! ### totality
 
-`linked ds` is what `protodesc` guarantees about a descriptor set (trusted): a message / enum
-kind field comes with its descriptor and the descriptor is in the set, enums have at least one
-value, the listed file-level names exist, and full names are unique across kinds. -/
+`linked ds` is what `protodesc` guarantees about a descriptor set (trusted; the driver evaluates
+it on every generated set and the harness answers `linked=1` for every set that links): a message
+/ enum kind field comes with its descriptor and the descriptor is in the set, enums have at least
+one value, the listed file-level names exist, full names are unique across kinds (no message or
+oneof has the full name of an enum, no message that of a oneof), and field numbers are distinct
+within a message. -/
 
 /-- **Never panics.** For every linked descriptor set `SchemaSetFromFiles` returns a schema set
 or an error — for any number of messages, any self / mutual recursion, any annotation
@@ -63,12 +66,24 @@ theorem C18_total (ds : DescSet) (hl : linked ds = true) :
   (schemaSetFromFiles_safe ds hl).1
 
 /-- the same for `SchemaCache.Schema`, for any sequence of calls on one cache: each call returns
-a schema or an error and leaves the cache sound (including after a failed build, which is rolled
-back) -/
-theorem C18_cache_total (ds : DescSet) (hl : linked ds = true) (reg : Reg) (hreg : RegOK ds reg)
-    (m : Msg) (hm : m ∈ ds.msgs) :
-    (∀ w, (cacheSchema ds reg m).1 ≠ .panic w) ∧ RegOK ds (cacheSchema ds reg m).2 :=
+a schema or an error and leaves the cache settled — sound, every reference registered for the
+descriptor it names, no placeholder left unlinked — including after a failed build, which is
+rolled back. `Settled ds []` holds (`C18_cache_starts_settled`). -/
+theorem C18_cache_total (ds : DescSet) (hl : linked ds = true) (reg : Reg) (hreg : Settled ds reg)
+    (m : Msg) (hm : ds.msg? m.full = some m) :
+    (∀ w, (cacheSchema ds reg m).1 ≠ .panic w) ∧ Settled ds (cacheSchema ds reg m).2 :=
   cacheSchema_safe ds hl reg m hm hreg
+
+theorem C18_cache_starts_settled (ds : DescSet) : Settled ds [] := Settled.nil ds
+
+/-- **Every reference is resolved.** In a reflected set no entry is left without a schema, and
+every object / oneof schema registered for a descriptor was built from exactly that descriptor:
+it is an object iff the message is not a oneof wrapper, each property describes a field of that
+message, and the schema name a message-kind property refers to is the one registered for the
+field's own target (`RegLinks`; colliding names are errors since af1da62). -/
+theorem C18_refs_linked (ds : DescSet) (hl : linked ds = true) (reg : Reg)
+    (h : schemaSetFromFiles ds = .ok reg) : (∀ e ∈ reg, e.to ≠ none) ∧ RegLinks ds reg :=
+  ⟨((schemaSetFromFiles_safe ds hl).2 reg h).2.2, ((schemaSetFromFiles_safe ds hl).2 reg h).2.1⟩
 
 /-- `message Foo_E {}  message Foo { enum E { E_UNSPECIFIED = 0; E_A = 1; }
      E x = 1 [(buf.validate.field).enum.in = 1]; }` — both `Foo_E` and `Foo.E` are "Foo_E".
@@ -83,7 +98,7 @@ def collisionWitness : DescSet :=
   let e : EnumD := ⟨"wt.v1.Foo.E", "wt.v1", "E", "Foo_E", false, [("E_UNSPECIFIED", 0), ("E_A", 1)]⟩
   ⟨["wt.v1.Foo_E", "wt.v1.Foo"], [], ["wt.v1.Foo_E", "wt.v1.Foo"], [fooE, foo], [e]⟩
 
-example : linked collisionWitness = true := by decide
+example : linked collisionWitness = true := by decide +kernel
 
 theorem C18_collision_is_an_error :
     schemaSetFromFiles collisionWitness = .err "schema name is used by two descriptors" :=
@@ -236,6 +251,229 @@ theorem C18_codec_ok_counterexample : ¬ C18_codec_ok_full := by
   revert this
   decide
 
+/-! ### flattened fields: every client property of every reflected root is usable
+
+`ObjectSchema.ClientProperties()` replaces a flattened field by the client properties of its
+object, paths concatenated, recursively (guarded against cycles, `C18_flatten_terminates`). The
+codec builds its property set from that list: `newPropSet` walks every path message by message,
+the field factories check the schema against the final field. -/
+
+/-- **`ClientProperties()` of every reflected object succeeds, and each client property — however
+many flattened fields its path goes through — resolves in the message the schema was built from
+to a field its schema describes**, or is the wrapper of an exposed oneof of the message the path
+ends in. `newPropSet`'s walk over them succeeds, and so does every kind check of the field
+factories (a list / map of `Any` excepted: open finding `any-in-collection`). -/
+theorem C18_codec_ok (ds : DescSet) (hl : linked ds = true) (reg : Reg)
+    (h : schemaSetFromFiles ds = .ok reg) (e : REntry) (he : e ∈ reg) (p k : String)
+    (en : Option (String × Int)) (am : List String) (ps : List RProp)
+    (hto : e.to = some (.object p k en am ps)) :
+    ∃ m cps, ds.msg? e.src = some m ∧ clientProps reg [⟨e.pkg, e.key⟩] ps = .ok cps ∧
+      (∀ q ∈ cps, ClientOK ds m q) ∧ resolveAll ds m cps = .ok () ∧
+      (∀ q ∈ cps, ∀ g, resolvePath ds m q.path = .ok (some g) → describes ds g q.schema = true →
+        anyInCollection q.schema = false → reflectField g q.schema = .ok ()) := by
+  have hs := (schemaSetFromFiles_safe ds hl).2 reg h
+  obtain ⟨m, hc, hsrc, _, _, _, hprops, _⟩ := hs.2.1 e he _ hto
+  obtain ⟨cps, hcps, hok⟩ := clientProps_ok ds hl reg hs [⟨e.pkg, e.key⟩] ps m hc hprops
+  refine ⟨m, cps, by rw [hsrc]; exact hc, hcps, hok, resolveAll_ok ds m cps hok, ?_⟩
+  intro q _ g _ hd hany
+  exact reflectField_ok ds g q.schema hd hany
+
+/-- the same for a oneof schema (a oneof wrapper message, or an exposed oneof: its members are
+fields of the message that declares it): `ClientProperties()` is the property list itself -/
+theorem C18_codec_ok_oneof (ds : DescSet) (hl : linked ds = true) (reg : Reg)
+    (h : schemaSetFromFiles ds = .ok reg) (e : REntry) (he : e ∈ reg) (p k : String)
+    (ps : List RProp) (hto : e.to = some (.oneof p k ps)) :
+    ∃ m, m ∈ ds.msgs ∧ (∀ q ∈ ps, ClientOK ds m q) ∧ resolveAll ds m ps = .ok () := by
+  have hs := (schemaSetFromFiles_safe ds hl).2 reg h
+  rcases hs.2.1 e he _ hto with ⟨m, hc, _, _, _, _, hprops, _⟩ | ⟨m, o, hc, _, _, _, _, hprops, _⟩
+  all_goals
+    have hok : ∀ q ∈ ps, ClientOK ds m q := fun q hq => (hprops q hq).clientOK ds hl reg m hc q
+    exact ⟨m, hc.mem, hok, resolveAll_ok ds m ps hok⟩
+
+/-- **`Reflector.NewRoot` succeeds** on every message whose schema the set holds (the class the
+`schema.reflect` stream compares for every message of every generated set) -/
+theorem C18_newroot_ok (ds : DescSet) (hl : linked ds = true) (reg : Reg)
+    (h : schemaSetFromFiles ds = .ok reg) (m : Msg) (hm : ds.msg? m.full = some m) (e : REntry)
+    (hfind : reg.find m.pkg m.split = some e) (hsrc : e.src = m.full) :
+    newRoot ds reg m = .ok () := by
+  have hs := (schemaSetFromFiles_safe ds hl).2 reg h
+  have he := mem_of_find reg _ _ e hfind
+  have same : ∀ m0, Canon ds m0 → e.src = m0.full → m0 = m := by
+    intro m0 hc0 h0
+    unfold Canon at hc0
+    rw [← h0, hsrc, hm] at hc0
+    cases hc0
+    rfl
+  unfold newRoot
+  rw [hfind]
+  simp only
+  cases hto : e.to with
+  | none => exact absurd hto (hs.2.2 e he)
+  | some root =>
+    have hroot := hs.2.1 e he root hto
+    cases root with
+    | enum _ _ _ _ =>
+      exfalso
+      simp only [RootLink] at hroot
+      rw [hsrc, (linked_names ds (linked_base hl) m (msg?_mem ds _ m hm)).1] at hroot
+      cases hroot
+    | object p k en am ps =>
+      obtain ⟨m0, hc0, h0, _, hp0, hk0, hprops, _⟩ := hroot
+      have := same m0 hc0 h0
+      subst this
+      obtain ⟨cps, hcps, hok⟩ := clientProps_ok ds hl reg hs [⟨m0.pkg, m0.split⟩] ps m0 hc0 hprops
+      simp [hcps, Outcome.bind, resolveAll_ok ds m0 cps hok]
+    | oneof p k ps =>
+      rcases hroot with ⟨m0, hc0, h0, _, _, _, hprops, _⟩ | ⟨m0, o, hc0, ho, h0, _⟩
+      · have := same m0 hc0 h0
+        subst this
+        simp only
+        exact resolveAll_ok ds m0 ps (fun q hq => (hprops q hq).clientOK ds hl reg m0 hc0 q)
+      · exfalso
+        have := linked_oneofName hl m0 hc0.mem o ho
+        rw [← h0, hsrc, hm] at this
+        cases this
+
+/-- `message A { B b = 1 [flatten]; string x = 2; }  message B { string y = 1; C c = 2 [flatten]; }
+message C { int32 z = 1; }` — two levels of flattening -/
+def flattenChain : DescSet :=
+  let flat : Option J5Sum := some ⟨"object", true, "none", 0⟩
+  let fb : FieldD := ⟨"b", "b", 1, .message, .single, -1, .msg "fl.v1.B" "fl.v1" "B", false, none, none, flat, none, none, none⟩
+  let fx : FieldD := ⟨"x", "x", 2, .string, .single, -1, .none, false, none, none, none, none, none, none⟩
+  let fy : FieldD := ⟨"y", "y", 1, .string, .single, -1, .none, false, none, none, none, none, none, none⟩
+  let fc : FieldD := ⟨"c", "c", 2, .message, .single, -1, .msg "fl.v1.C" "fl.v1" "C", false, none, none, flat, none, none, none⟩
+  let fz : FieldD := ⟨"z", "z", 1, .int32, .single, -1, .none, false, none, none, none, none, none, none⟩
+  let a : Msg := ⟨"fl.v1.A", "fl.v1", "A", "A", none, none, "nofield", none, [], [fb, fx]⟩
+  let b : Msg := ⟨"fl.v1.B", "fl.v1", "B", "B", none, none, "nofield", none, [], [fy, fc]⟩
+  let c : Msg := ⟨"fl.v1.C", "fl.v1", "C", "C", none, none, "nofield", none, [], [fz]⟩
+  ⟨["fl.v1.A", "fl.v1.B", "fl.v1.C"], [], ["fl.v1.A", "fl.v1.B", "fl.v1.C"], [a, b, c], []⟩
+
+def flattenChainReg : Reg :=
+  [⟨"fl.v1", "A", some (.object "fl.v1" "A" none []
+      [⟨"b", false, false, [1], .object ⟨"fl.v1", "B"⟩ true⟩, ⟨"x", false, false, [2], .scalar .string 0 9 ""⟩]),
+      "fl.v1.A"⟩,
+   ⟨"fl.v1", "B", some (.object "fl.v1" "B" none []
+      [⟨"y", false, false, [1], .scalar .string 0 9 ""⟩, ⟨"c", false, false, [2], .object ⟨"fl.v1", "C"⟩ true⟩]),
+      "fl.v1.B"⟩,
+   ⟨"fl.v1", "C", some (.object "fl.v1" "C" none [] [⟨"z", false, false, [1], .scalar .integer 1 5 ""⟩]),
+      "fl.v1.C"⟩]
+
+/-- non-vacuity of `C18_codec_ok`: the chain is linked, reflects, … -/
+example : linked flattenChain = true := by decide +kernel
+
+theorem flattenChain_reflects : schemaSetFromFiles flattenChain = .ok flattenChainReg :=
+  schemaSetFromFilesN_sound flattenChain 20 _ (by decide +kernel)
+
+/-- … and the client properties of `A` are `y` (path 1.1), `z` (path 1.2.1) and `x` (path 2), each
+resolving to the field it describes -/
+example :
+    clientProps flattenChainReg [⟨"fl.v1", "A"⟩]
+        [⟨"b", false, false, [1], .object ⟨"fl.v1", "B"⟩ true⟩, ⟨"x", false, false, [2], .scalar .string 0 9 ""⟩] =
+      .ok [⟨"y", false, false, [1, 1], .scalar .string 0 9 ""⟩,
+           ⟨"z", false, false, [1, 2, 1], .scalar .integer 1 5 ""⟩,
+           ⟨"x", false, false, [2], .scalar .string 0 9 ""⟩] :=
+  clientPropsN_sound _ 10 _ _ _ (by decide +kernel)
+
+/-! ### client property names (open finding `duplicate-client-property-name`)
+
+Within one schema the property names are unique (`C18_names_unique`, part of `RegLinks`). The
+*client* properties of an object — after flattening — are what the codec keys on, and the reader
+does not check those: a flattened field can bring a name the object already has. -/
+
+/-- the full statement: the client properties of every reflected object have distinct names -/
+def C18_client_names_full : Prop :=
+  ∀ (ds : DescSet) (reg : Reg), linked ds = true → schemaSetFromFiles ds = .ok reg →
+    ∀ e ∈ reg, clientNamesOK reg e = .ok ()
+
+/-- `message A { string x = 1; B b = 2 [flatten]; }  message B { string x = 1; }` — witness 8 of
+every `schema.reflect` shard -/
+def flattenClashWitness : DescSet :=
+  let flat : Option J5Sum := some ⟨"object", true, "none", 0⟩
+  let fx : FieldD := ⟨"x", "x", 1, .string, .single, -1, .none, false, none, none, none, none, none, none⟩
+  let fb : FieldD := ⟨"b", "b", 2, .message, .single, -1, .msg "wt.v1.B" "wt.v1" "B", false, none, none, flat, none, none, none⟩
+  let a : Msg := ⟨"wt.v1.A", "wt.v1", "A", "A", none, none, "nofield", none, [], [fx, fb]⟩
+  let b : Msg := ⟨"wt.v1.B", "wt.v1", "B", "B", none, none, "nofield", none, [], [fx]⟩
+  ⟨["wt.v1.A", "wt.v1.B"], [], ["wt.v1.A", "wt.v1.B"], [a, b], []⟩
+
+def flattenClashReg : Reg :=
+  [⟨"wt.v1", "A", some (.object "wt.v1" "A" none []
+      [⟨"x", false, false, [1], .scalar .string 0 9 ""⟩, ⟨"b", false, false, [2], .object ⟨"wt.v1", "B"⟩ true⟩]),
+      "wt.v1.A"⟩,
+   ⟨"wt.v1", "B", some (.object "wt.v1" "B" none [] [⟨"x", false, false, [1], .scalar .string 0 9 ""⟩]),
+      "wt.v1.B"⟩]
+
+theorem flattenClash_reflects : schemaSetFromFiles flattenClashWitness = .ok flattenClashReg :=
+  schemaSetFromFilesN_sound flattenClashWitness 20 _ (by decide +kernel)
+
+theorem C18_client_names_counterexample : ¬ C18_client_names_full := by
+  intro h
+  have := h flattenClashWitness _ (by decide +kernel) flattenClash_reflects
+    ⟨"wt.v1", "A", some (.object "wt.v1" "A" none []
+      [⟨"x", false, false, [1], .scalar .string 0 9 ""⟩, ⟨"b", false, false, [2], .object ⟨"wt.v1", "B"⟩ true⟩]),
+      "wt.v1.A"⟩ (List.mem_cons_self ..)
+  have hcp : clientProps flattenClashReg [⟨"wt.v1", "A"⟩]
+      [⟨"x", false, false, [1], .scalar .string 0 9 ""⟩, ⟨"b", false, false, [2], .object ⟨"wt.v1", "B"⟩ true⟩] =
+      .ok [⟨"x", false, false, [1], .scalar .string 0 9 ""⟩, ⟨"x", false, false, [2, 1], .scalar .string 0 9 ""⟩] :=
+    clientPropsN_sound _ 10 _ _ _ (by decide +kernel)
+  simp only [clientNamesOK, hcp, Outcome.bind] at this
+  revert this
+  decide
+
+/-- no property of the list is a flattened object -/
+def noFlatten (ps : List RProp) : Bool :=
+  ps.all fun p => match p.schema with | .object _ true => false | _ => true
+
+theorem clientProps_noFlatten (reg : Reg) (fl : List Ref) (ps : List RProp) (h : noFlatten ps = true) :
+    clientProps reg fl ps = .ok ps := by
+  induction ps with
+  | nil => simp [clientProps]
+  | cons p ps ih =>
+    simp only [noFlatten, List.all_cons, Bool.and_eq_true] at h
+    have ih' := ih (by simpa [noFlatten] using h.2)
+    rw [clientProps]
+    split
+    · rename_i ref hsch
+      simp [hsch] at h
+    · simp [Outcome.bind, ih', Outcome.map]
+
+/-- **Client names are unique** (partial: objects without a flattened field; exactly the recorded
+class is excluded — with a flattened field the names may clash, `flattenClashWitness`) -/
+theorem C18_client_names_partial (ds : DescSet) (hl : linked ds = true) (reg : Reg)
+    (h : schemaSetFromFiles ds = .ok reg) (e : REntry) (he : e ∈ reg) (p k : String)
+    (en : Option (String × Int)) (am : List String) (ps : List RProp)
+    (hto : e.to = some (.object p k en am ps)) (hnf : noFlatten ps = true) :
+    clientNamesOK reg e = .ok () := by
+  have hs := (schemaSetFromFiles_safe ds hl).2 reg h
+  obtain ⟨m, _, _, _, _, _, _, hnd⟩ := hs.2.1 e he _ hto
+  unfold clientNamesOK
+  rw [hto]
+  simp only [clientProps_noFlatten reg _ ps hnf, Outcome.bind]
+  have : namesUnique ps = true := by simpa [namesUnique] using hnd
+  simp [this]
+
+example : noFlatten [⟨"x", false, false, [1], .scalar .string 0 9 ""⟩] = true := by decide
+
+/-! ### the codec model's well-formedness predicate holds for reflected schemas -/
+
+/-- **A reflected schema set, rendered as the codec model's environment
+(`J5V.Schema.Bridge.toEnv`), satisfies `Env.itemsOk`** — array / map items are never arrays or
+maps — for every descriptor set. `itemsOk` is the hypothesis of the codec cluster's no-panic
+theorems (`C06_decode_no_panic`, `C06_query_no_panic`): for schemas that come out of reflection it
+holds by construction. -/
+theorem C18_reflected_itemsOk (ds : DescSet) (reg : Reg) (h : schemaSetFromFiles ds = .ok reg) :
+    (Bridge.toEnv ds reg).itemsOk = true :=
+  Bridge.reflected_itemsOk ds reg h
+
+/-- … so the decoder model cannot panic on any input for any reflected root (the codec cluster's
+theorem, instantiated) -/
+theorem C18_reflected_decode_no_panic (ds : DescSet) (reg : Reg) (h : schemaSetFromFiles ds = .ok reg)
+    (c : Codec.Cfg) (hc : c.env = Bridge.toEnv ds reg) (root : String) (bs : Json.Bytes) :
+    ∀ w, Codec.decodeBytes c root bs ≠ .panic w :=
+  Codec.decodeBytes_np c (by rw [hc]; exact C18_reflected_itemsOk ds reg h) root bs
+
+example : (Bridge.toEnv flattenChain flattenChainReg).itemsOk = true :=
+  C18_reflected_itemsOk _ _ flattenChain_reflects
+
 /-! ## Non-vacuity -/
 
 /-- `message M { M child = 1; string name = 2; }` — self-recursive -/
@@ -247,7 +485,7 @@ def selfRecursive : DescSet :=
   let m : Msg := ⟨"p.v1.M", "p.v1", "M", "M", none, none, "nofield", none, [], [f1, f2]⟩
   ⟨["p.v1.M"], [], ["p.v1.M"], [m], []⟩
 
-example : linked selfRecursive = true := by decide
+example : linked selfRecursive = true := by decide +kernel
 
 /-- … and it reflects: one object `M` with an object property pointing back at `M` -/
 example : schemaSetFromFiles selfRecursive =
